@@ -85,7 +85,7 @@ def run(model: Model, rep: Report) -> None:
         got = [x.name for x in v if isinstance(x, Lit)]
         r1.check(sorted(got) == sorted(want), f"pdfminer/pdftypes.py:{mod.assigns[name].lineno}:{name}", T + name, f"{name} == {want}", why=f"is {got}")
     dec = model.func(T + "PDFStream.decode")
-    loop = next((n for n in walk_no_nested(dec.node) if isinstance(n, ast.For) and unparse(n.iter) == "filters"), None)
+    loop = next((n for n in walk_no_nested(dec.node) if isinstance(n, ast.For) and any(isinstance(x, ast.Name) and x.id == "filters" for x in ast.walk(n.iter))), None)
     if loop is None:
         raise AnchorMissing("PDFStream.decode: `for f, params in filters` not found")
     fvar = unparse(loop.target.elts[0]) if isinstance(loop.target, ast.Tuple) else "f"
